@@ -477,7 +477,7 @@ class ArrayContainer(TreeClass):
 
         detector_states = self.detector_states
         if reset_detector_states:
-            detector_states = {k: {k2: v2 * 0 for k2, v2 in v.items()} for k, v in detector_states.items()}
+            detector_states = {k: {k2: jnp.zeros_like(v2) for k2, v2 in v.items()} for k, v in detector_states.items()}
         arrays = arrays.aset("detector_states", detector_states)
 
         recording_state = self.recording_state
